@@ -125,7 +125,8 @@ ERR_JOB = job("quanterr",
        "draws its offsets from random_utils::rand: (a) enumerates them by seeding that engine, assuming one std::uniform_int_distribution<uint16_t>(0, stride-1) "
        "draw per populated source level (the harness verifies the number of engine draws and skips the exhaustive scenario otherwise); the statistical "
        "unbiasedness trials of (c) do not depend on that assumption; (b) does not model the down-sampling merge",
-       "REQ merges of sketches with different k are outside (c): req_sketch keeps its own k and publishes bounds for it (see notes/C08-report.md)",
+       "REQ merges with the small k below the top of the tree are the recorded known finding C08:req-mixed-k-merge-bounds: the directed group req-mixed-k "
+       "demonstrates it in every run (marker, exit 0); the same coverage clause in any other group is a violation",
        "rank(v) * n is logged as an integer with the residual required below 1e-6",
        "(c) is an acceptance predicate over samples: thresholds p + 6 sqrt(p(1-p)/trials) + 0.02, trials (not queries) counted as independent"])
 def run_c08(oc, repo, seed, tier):
